@@ -145,7 +145,7 @@ func (w *world) set(z, ix int64, npnil, pnil bool) {
 	}
 	w.np = nil
 	if !npnil {
-		w.np = &CD{}
+		w.np = &CD{I: 1}
 	}
 	w.dc.Add("z", z)
 	w.dc.Add("ix", ix)
